@@ -119,7 +119,29 @@ def one_op(rng, root):
     return rng.choice(choices)
 
 
+def fixed_scenarios(run):
+    """regressions outside the skeleton language of the corpus (they need exotic entries)"""
+    from tensordict import LazyStackedTensorDict, TensorDict
+    # a lazily stacked nested tensordict refuses the new batch size: the empty sibling must not have been resized already
+    m = TensorDict({}, [3, 2])
+    td = TensorDict({"b": TensorDict({}, [3])}, [3])
+    td.set("lazy", LazyStackedTensorDict.lazy_stack([m.clone(), m.clone(), m.clone()], 1))
+    out = "ok"
+    try:
+        td.batch_size = [0]
+    except Exception as e:  # noqa
+        out = "raised:" + O.cls_of(e)
+    viol = O.walk_coherent(td)
+    run.count("ops.extended", "scenario:lazy-sibling")
+    if viol:
+        run.oracle_fail("walk-ext", {"scenario": "lazy-sibling", "call": "td.batch_size = [0]"}, f"({out}): " + "; ".join(viol[:3]),
+                        "scenario:lazy-sibling:" + out)
+    else:
+        run.oracle_ok("walk-ext")
+
+
 def run_extended(run, rng):
+    fixed_scenarios(run)
     nh = 500 if run.tier == "quick" else 5000
     for hid in range(nh):
         td = rich_tree(rng)
